@@ -254,6 +254,11 @@ pub fn run(cfg: Cfg, t: &Tables, ops: &[Op], plan: &Plan, seen: &Mutex<HashSet<u
             "C20: a write buffer of {len} bytes queued in an io_uring submission was returned to the allocator before its completion was seen (the kernel may still be reading from it)"
         ));
     }
+    if let Some(id) = *sut.sess.uring_id_clash.lock() {
+        fr.problems.push(format!(
+            "C20: an io_uring submission was given completion id {id} while an earlier submission with the same id had not been reaped: that write's completion will be taken for the new one's, and the new buffer released while the kernel still reads it"
+        ));
+    }
     if crate::kledger::overflowed() {
         fr.machinery = Some("kernel-ownership ledger overflowed".into());
     }
